@@ -2131,3 +2131,152 @@ func rulePreviousSchemaTakenAtOnce(c *core.Ctx) {
 		c.Undecided(rule, "anchor/PreviousSchema", 0, "no assignment to a PreviousSchema field found")
 	}
 }
+
+func init() {
+	reg("C09", ruleTraversalContextsNotMutated)
+	reg("C19", ruleTraversalContextsNotMutated)
+}
+
+// ---------------------------------------------------------------------------------------------------------------
+// CX1: the context a traversal hands down (the second argument of Rewrite / DefaultRewrite / Visit / VisitChildren
+// with context) is a value per subtree: a callee that wants a different context for its children builds a new one.
+// No function assigns a field THROUGH a pointer to such a context that it received (directly or through a local
+// that aliases the pointer — `inner := s; inner.Variables = append(…)`): the change would be seen by the siblings
+// visited afterwards (a variable declared by one switch case stays in scope for the later cases).
+// ---------------------------------------------------------------------------------------------------------------
+func ruleTraversalContextsNotMutated(c *core.Ctx) {
+	const rule = "CX1"
+	c.Rule(rule, "pkg/dsl: no function assigns a field through a pointer parameter / receiver (or a local aliasing it) whose type is a struct handed down as the context of Rewrite / DefaultRewrite / Visit / VisitChildren", 2)
+	p := c.Pkg("pkg/dsl")
+	if p == nil {
+		c.Undecided(rule, "anchor/pkg/dsl", 0, "package not found")
+		return
+	}
+	info := p.TypesInfo
+	ctxTypes := map[*types.TypeName]bool{}
+	for _, d := range c.AllDecls() {
+		if c.DeclPkg(d) != p || d.Body == nil || c.IsTestFile(d.Pos()) {
+			continue
+		}
+		ast.Inspect(d.Body, func(m ast.Node) bool {
+			ce, ok := m.(*ast.CallExpr)
+			if !ok || len(ce.Args) != 2 {
+				return true
+			}
+			se, ok := ce.Fun.(*ast.SelectorExpr)
+			if !ok {
+				return true
+			}
+			switch se.Sel.Name {
+			case "Rewrite", "DefaultRewrite", "Visit", "VisitChildren":
+			default:
+				return true
+			}
+			if pt, ok := info.TypeOf(ce.Args[1]).(*types.Pointer); ok {
+				if nt := core.NamedOf(pt.Elem()); nt != nil && nt.Obj().Pkg() == p.Types {
+					if _, isStruct := nt.Underlying().(*types.Struct); isStruct {
+						ctxTypes[nt.Obj()] = true
+					}
+				}
+			}
+			return true
+		})
+	}
+	isCtxPtr := func(t types.Type) bool {
+		pt, ok := t.(*types.Pointer)
+		if !ok {
+			return false
+		}
+		nt := core.NamedOf(pt.Elem())
+		return nt != nil && ctxTypes[nt.Obj()]
+	}
+	n := 0
+	for _, d := range c.AllDecls() {
+		if c.DeclPkg(d) != p || d.Body == nil || c.IsTestFile(d.Pos()) {
+			continue
+		}
+		// every function scope: the declared function and the literals in it
+		var scopes []struct {
+			params *ast.FieldList
+			body   *ast.BlockStmt
+		}
+		if d.Recv != nil {
+			scopes = append(scopes, struct {
+				params *ast.FieldList
+				body   *ast.BlockStmt
+			}{d.Recv, d.Body})
+		}
+		scopes = append(scopes, struct {
+			params *ast.FieldList
+			body   *ast.BlockStmt
+		}{d.Type.Params, d.Body})
+		ast.Inspect(d.Body, func(m ast.Node) bool {
+			if fl, ok := m.(*ast.FuncLit); ok {
+				scopes = append(scopes, struct {
+					params *ast.FieldList
+					body   *ast.BlockStmt
+				}{fl.Type.Params, fl.Body})
+			}
+			return true
+		})
+		k := 0
+		for _, sc := range scopes {
+			received := map[types.Object]bool{}
+			if sc.params != nil {
+				for _, f := range sc.params.List {
+					for _, nm := range f.Names {
+						if o := info.Defs[nm]; o != nil && isCtxPtr(o.Type()) {
+							received[o] = true
+						}
+					}
+				}
+			}
+			if len(received) == 0 {
+				continue
+			}
+			n++
+			k++
+			// locals that alias a received pointer: x := p (not x := *p, which copies)
+			ast.Inspect(sc.body, func(m ast.Node) bool {
+				if as, ok := m.(*ast.AssignStmt); ok && len(as.Lhs) == len(as.Rhs) {
+					for i := range as.Lhs {
+						if id, ok := as.Lhs[i].(*ast.Ident); ok {
+							if r := identObj(info, ast.Unparen(as.Rhs[i])); r != nil && received[r] {
+								if o := info.ObjectOf(id); o != nil {
+									received[o] = true
+								}
+							}
+						}
+					}
+				}
+				return true
+			})
+			bad := token.NoPos
+			what := ""
+			ast.Inspect(sc.body, func(m ast.Node) bool {
+				as, ok := m.(*ast.AssignStmt)
+				if !ok {
+					return true
+				}
+				for _, l := range as.Lhs {
+					if se, ok := l.(*ast.SelectorExpr); ok {
+						if o := identObj(info, ast.Unparen(se.X)); o != nil && received[o] && bad == token.NoPos {
+							bad = as.Pos()
+							what = types.ExprString(l)
+						}
+					}
+				}
+				return true
+			})
+			at := sc.body.Pos()
+			if bad != token.NoPos {
+				at = bad
+			}
+			c.Check(bad == token.NoPos, rule, fmt.Sprintf("%s/context#%d", c.FuncName(d), k), at, "the received context is read, copied or replaced, never assigned through",
+				"`"+what+" = …` assigns through a pointer to a traversal context the function received (or a local that aliases it, `x := p` copies the pointer, not the struct): the enclosing scope is changed for every sibling visited afterwards — a variable declared by one `!switch` case stays visible in the later cases, and a computed field that uses it there is accepted")
+		}
+	}
+	if n == 0 {
+		c.Undecided(rule, "anchor/contexts", 0, "no function of pkg/dsl receives a traversal context struct by pointer")
+	}
+}
